@@ -26,6 +26,8 @@ def obligations(tier, seed):
         add(h, desc="history 2 -> 8 (multiply_into onto a symbolic destination) -> 2 on one object equals fresh results", bounds="4 symbolic x 5 concrete coefficients")
     add("c04_hist_shrink", desc="size 4 (fully symbolic) after the object has grown to 8")
     add("c04_fft_pointwise_inv", desc="fft -> pointwise product -> fft_inv = multiply", bounds="2x2")
+    add("c04_inv_same_object", desc="fft_inv(fft(a, 8)) = a on the object that produced the spectrum", bounds="size 8")
+    add("c04_inv_fresh_object", role="inv-fresh", desc="fft_inv of a size-8 spectrum on a FRESH object (history independence of the inverse transform)", bounds="size 8")
     add("c04_into_accumulates", desc="fft_into / fft_inv_into add to their destination")
     add("c04_twin_false", expect="fail", desc="deliberately false twin")
     return obs
